@@ -134,14 +134,16 @@ class Context:
             # appear reserved in stablehlo or llvm, see
             # functional_algorithms#68
             ref_name_ = f"_{ref_name}_{counter}_"
+            # the candidate name must be checked also when the
+            # origin-prefixed name itself is not in use
+            other = self._ref_values.get(ref_name_)
             while other is not None:
-                other = self._ref_values.get(ref_name_)
                 if other is expr:
                     assert expr.props["ref"] == ref_name_  # sanity check
-                    return expr
-                elif other is not None:
-                    counter += 1
-                    ref_name_ = f"_{ref_name}_{counter}_"
+                    return ref_name_
+                counter += 1
+                ref_name_ = f"_{ref_name}_{counter}_"
+                other = self._ref_values.get(ref_name_)
             ref_name = ref_name_
 
         # register reference name:
